@@ -4,7 +4,7 @@ from __future__ import annotations
 
 from .. import terms as tm
 from ..model import AnalysisError
-from .common import ob, need, call_name, facts, role_of, roles, count_form, nonempty_bases, linear_form
+from .common import ob, need, call_name, facts, role_of, roles, count_form, nonempty_bases, linear_form, is_lit, lit
 from . import common
 from .. import symeval
 from . import c01
@@ -914,7 +914,37 @@ def rule_nanrange(ctx):
             yield ob(R, f, key, bool(g), "the range test [%s, %s] on %s also rejects NaN" % (lo, hi, tm.show(w, 2)) if g else "the range test [%s, %s] on %s is built from one-sided comparisons that are all false for NaN: a NaN value is accepted as in range and flows into the score (write `not %s <= x <= %s`)" % (lo, hi, tm.show(w, 2), lo, hi), node=r.node)
 
 
+BEAT_METRICS = ("beat.f_measure", "beat.cemgil", "beat.goto", "beat.p_score", "beat.continuity", "beat.information_gain")
+
+
+def rule_beatguard(ctx):
+    """Every beat metric scores a degenerate pair (no beats / a single beat where intervals are needed) 0 instead of
+    going on to index or divide: its zero exit is guarded by a size test on the reference *and* on the estimate.  A
+    guard that looks at one side only lets a valid empty annotation on the other side reach code that raises."""
+    R = "C14.BEATGUARD"
+    for q in BEAT_METRICS:
+        f = ctx.program.func(q, R)
+        s = ctx.S.get(q)
+        sides = set()
+        n = 0
+        for r in s.returns:
+            comps = r.term.a if r.term.op == "tuple" else [r.term]
+            if not all(is_lit(x) and lit(x) == 0 for x in comps):
+                continue
+            for c, pol in symeval.pc_conds(r.pc):
+                if not pol:
+                    continue
+                for x in tm.walk(c):
+                    cf = count_form(x)
+                    if cf is not None and cf[1].op == "param":
+                        n += 1
+                        sides |= roles(cf[1])
+        need(n > 0, R, "%s: no zero exit guarded by a size test found" % q)
+        yield ob(R, f, "%s:zero-exit-tests-both-sides" % q, {"R", "E"} <= sides, "the degenerate-input exit tests the size of both the reference and the estimated beats" if {"R", "E"} <= sides else "the degenerate-input exit only tests the %s side: a valid empty or single-beat annotation on the other side reaches the scoring code" % ("reference" if sides == {"R"} else "estimated"))
+
+
 RULES = [
+    ("C14.BEATGUARD", 6, rule_beatguard),
     ("C14.GRAMMAR", 3, common.shared("c10", "rule_grammar", "C14.GRAMMAR")),
     ("C14.NANRANGE", 3, rule_nanrange),
     ("C14.VALIDATEFIRST", 70, rule_validatefirst),
